@@ -11,7 +11,7 @@ git -C $WT apply $P || { echo "patch does not apply"; exit 2; }
 cd /verif
 if [ -n "$SECS" ]; then export VERIF_SECS=$SECS; fi
 LOG=/tmp/eval-$ID-$$.log
-VERIF_REPO=$WT VERIF_EVIDENCE_DIR=/tmp/eval-evidence ./check $ID $TIER > $LOG 2>&1; rc=$?
+VERIF_MAX_SIGS=1 VERIF_MIN_BUDGET=48 VERIF_REPO=$WT VERIF_EVIDENCE_DIR=/tmp/eval-evidence ./check $ID $TIER > $LOG 2>&1; rc=$?
 grep -E "^VIOLATION|signature=|^$ID |verifctl:" $LOG | cut -c1-260
 echo "EXIT=$rc"
 rm -f $LOG
